@@ -145,7 +145,7 @@ Definition requested_survive_b : bool :=
 
 Definition tail_steps : list string :=
   [ "MakeCustomizedResMap"; "AccumulateTarget"; "addHashesToNames"; "FixBackReferences"; "ResolveVars"; "IgnoreLocal";
-    "DropLocalNodes"; "Intersection"; "FromResourceSlice"; "applySortOrder"; "Transform";
+    "DropLocalNodes"; "Intersection"; "FromResourceSlice"; "New"; "Append"; "applySortOrder"; "Transform";
     "RemoveBuildAnnotations"; "RemoveOriginAnnotations"; "RemoveTransformerAnnotations" ].
 
 Definition only_tail_steps (l : list string) : list string := filter (fun c => str_in c tail_steps) l.
@@ -158,12 +158,13 @@ Fixpoint str_list_eq (a b : list string) : bool :=
   end.
 
 (* makeCustomizedResMap: accumulate, hash names, fix references, resolve vars, IgnoreLocal — in this order;
-   IgnoreLocal: DropLocalNodes, then Intersection with the map FromResourceSlice builds;
+   IgnoreLocal: DropLocalNodes, a fresh ResMap filled with Append (an id conflict is an error: fix 66fde0c replaced
+   Factory.FromResourceSlice, which panicked), then Intersection with it;
    Run: MakeCustomizedResMap, sort, (managed-by label transformer), then the three removals *)
 Definition tail_order_b : bool :=
   str_list_eq (only_tail_steps gen_make_customized_calls)
               ["AccumulateTarget"; "addHashesToNames"; "FixBackReferences"; "ResolveVars"; "IgnoreLocal"]
-  && str_list_eq (only_tail_steps gen_ignore_local_calls) ["DropLocalNodes"; "Intersection"; "FromResourceSlice"]
+  && str_list_eq (only_tail_steps gen_ignore_local_calls) ["DropLocalNodes"; "New"; "Append"; "Intersection"]
   && str_list_eq (only_tail_steps gen_run_calls)
               ["MakeCustomizedResMap"; "applySortOrder"; "Transform";
                "RemoveBuildAnnotations"; "RemoveOriginAnnotations"; "RemoveTransformerAnnotations"].
